@@ -53,7 +53,7 @@ def main(tier, only=None):
     model = os.path.join(HERE, 'verif_fstream_model.hpp')
     u = E2Unit('logfiles_C15', os.path.join(HERE, 'w_files.cpp'), lib_srcs=LIB, shapes=shapes, timeout=600, conc_cap=200,
                extra_flags=['-D_GLIBCXX_FSTREAM=1', '-include', model], validate_vectors=8,
-               bounds=dict(limits='entries 1..3 / bytes 4..12', generations='2..3', histories='all write/restart histories up to length %d (no double restart)' % maxlen, message_length='1..3 symbolic'))
+               bounds=dict(limits='entries 1..3 / bytes 4..12', generations='2..3', histories='all write/restart histories up to length %d (no double restart)' % maxlen, message_length='0..3 symbolic (0 = empty text)'))
     u.native_flags = ['-D_GLIBCXX_FSTREAM=1', '-include', model]
     rule = ('one obligation = (policy, limit, generations, history of writes/restarts); message lengths symbolic; after every event z3 decides the retained-suffix, limit and '
             'roll-only-when-needed assertions on every path')
